@@ -45,6 +45,20 @@ ID1 = [
     ('degrees(radians)', 'DEGREES(RADIANS(x))-x', 0, lambda x: abs(x) < 1e5),
     ('radians', 'RADIANS(x)*180/PI()-x', 0, lambda x: abs(x) < 1e5),
 ]
+# identities that hold for arguments of any magnitude (sampled up to 1e9)
+IDL = [
+    ('sinh(asinh)-large', 'SINH(ASINH(x))/x', 1),
+    ('asinh-odd', 'ASINH(-x)/ASINH(x)', -1),
+    ('atan-large', '(ATAN(x)+ATAN(1/x))*2/PI()/SIGN(x)', 1),
+    ('acot-large', 'ACOT(x)*x', None),                 # -> 1 as |x| grows: checked against 1 only for |x| >= 1e5
+    ('ln-square', 'LN(x*x)/LN(ABS(x))', 2),
+    ('log10-large', 'LOG10(ABS(x)*10)-LOG10(ABS(x))', 1),
+    ('sqrt-large', 'SQRT(x*x)/ABS(x)', 1),
+    ('acoth-large', 'ACOTH(x)/ATANH(1/x)', 1),
+    ('degrees-large', 'DEGREES(x)/x*PI()', 180),
+    ('tanh-saturates', 'TANH(x)/SIGN(x)', None),       # -> 1: only for |x| >= 40
+    ('abs-large', 'ABS(x)/x/SIGN(x)', 1),
+]
 ID2 = [
     ('log(x,b)', 'LOG(x,y)*LN(y)/LN(x)', 1, lambda x, y: x > 0 and y > 0 and abs(y - 1) > 1e-2 and abs(x - 1) > 1e-2),
     ('power', 'POWER(x,y)/EXP(y*LN(x))', 1, lambda x, y: 1e-3 < x < 1e3 and abs(y) < 20 and abs(y * math.log(x)) < 100),
@@ -157,6 +171,37 @@ def main(tier, replay=None):
                 p.set_variable('x', xv)
                 env = dict(env0, vars={'x': enc(xv) if not isinstance(xv, float) else {'t': 'flt', 'r': repr(xv)}})
                 obs.append(got_want(values.outcome(p.parse(text)), want, env, text, name))
+    for name, text, want in IDL:
+        for _ in range(nid // 10):
+            x = rng.choice([1, -1]) * 10 ** rng.uniform(1.5, 9)
+            w = want
+            if name == 'acot-large':
+                if abs(x) < 1e5:
+                    continue
+                w = 1
+            if name == 'tanh-saturates':
+                x = rng.choice([1, -1]) * rng.uniform(40, 600)
+                w = 1
+            if name in ('sinh(asinh)-large', 'asinh-odd') and False:
+                continue
+            p.set_variable('x', x)
+            env = dict(env0, vars={'x': {'t': 'flt', 'r': repr(x)}})
+            obs.append(got_want(values.outcome(p.parse(text)), w, env, text, name))
+    # numeric text in exponent notation is numeric text too
+    for name, text, want, dom in ID1:
+        only_args = 'x*' not in text and '-x' not in text and '/x' not in text and '*x' not in text
+        if not only_args:
+            continue
+        for _ in range(max(2, nid // 40)):
+            x = sample_real(rng)
+            if not dom(x):
+                continue
+            for xv in ('%.15e' % x, ('%.12E' % x).replace('E', 'E+') if 'E-' not in ('%.12E' % x) and 'E+' not in ('%.12E' % x) else '%.12E' % x):
+                if not dom(float(xv)):
+                    continue
+                p.set_variable('x', xv)
+                env = dict(env0, vars={'x': enc(xv)})
+                obs.append(got_want(values.outcome(p.parse(text)), want, env, text, name + '[exponent text]'))
     for name, text, want, dom in ID2:
         k = 0
         while k < nid // 10:
